@@ -383,7 +383,7 @@ class ScenarioGen:
             self.feat("sign-or-light.without-position")
         # stop lines refer to a subset of their lanelet's signs / lights
         for la in lls:
-            if r.random() < 0.5 and not (self.defaults and la is lls[0]):
+            if (r.random() < 0.5 or (self.defaults and la is lls[-1])) and not (self.defaults and la is lls[0]):
                 kind = self.cyc(["refs", "none-refs", "empty-refs"])
                 sr = set(r.sample(sorted(la.traffic_signs), r.randint(0, len(la.traffic_signs)))) if kind == "refs" else \
                     (None if kind == "none-refs" else set())
@@ -494,6 +494,26 @@ class ScenarioGen:
                     out.append(PhantomObstacle(oid, SetBasedPrediction(1, occs())))
             else:
                 out.append(EnvironmentObstacle(oid, self.cyc(en_types), self.shape(False)))
+        if self.i % 4 in (1, 2) and not self.defaults:
+            # vehicles of different models in one file, in both orders: the state vector of the later one is a strict
+            # superset / subset of the earlier one's (KS c ST c STD, KS c MB)
+            import commonroad.scenario.state as st_
+            pair = ("KSState", "STState") if self.i % 4 == 1 else ("MBState", "KSState")   # (i % 4 == 3: defaults mode in pb)
+            if self.fmt == "pb" and self.i % 8 == 5:
+                pair = ("STState", "STDState")
+            for cls_ in pair:
+                oid = self.nid()
+                fields_ = [f for f in self.G.state_fields(cls_) if f not in ("position", "orientation")]
+                states_ = []
+                for t in (1, 2, 3):
+                    kw_ = {"time_step": t, "position": np.array([1000.0 * (oid % 90) + t, 2.5]), "orientation": 0.125 * t}
+                    for fi, name in enumerate(fields_):
+                        kw_[name] = 10.0 * (fi + 1) + t / 8.0
+                    states_.append(getattr(st_, cls_)(**kw_))
+                shp_ = self.shape(True)
+                out.append(DynamicObstacle(oid, self.cyc(dy_types), shp_, self.initial_state(),
+                                           TrajectoryPrediction(Trajectory(1, states_), shp_)))
+            self.feat("trajectories-of-nested-state-classes.%s-then-%s" % pair)
         return out
 
     # ----------------------------------------------------------------- planning
